@@ -11,12 +11,12 @@
 (*       idle |-> BOOLEAN, lat |-> <<p0,p1,p2,pv>> interrupt latches, vaddr, vctx,                       *)
 (*       miu  |-> [base, z]  MMIO window base and z page (page mode 0) ]                                 *)
 (* Physical word addresses: program word p = p; data word a = 0x20000 + 0x10000*z + a; an access inside  *)
-(* the MMIO window is the pseudo-address 0x100000 + offset (it never touches memory).                      *)
+(* the MMIO window is the pseudo-address 0x1000000 + offset (it never touches memory).                      *)
 EXTENDS TeakAddr, TeakAlu, TeakOperand, TLC
 
 MemWords == 262144                         \* 0x80000 bytes
 DataBase == 131072
-MmioBase == 1048576                        \* pseudo-addresses of MMIO window accesses
+MmioBase == 16777216                       \* pseudo-addresses of MMIO window accesses
 
 Fail(s, o) == IF s.out = "ok" THEN [s EXCEPT !.out = o] ELSE s
 SetR(s, r2) == [s EXCEPT !.r = r2]
@@ -154,7 +154,7 @@ SpInc(s) == [s EXCEPT !.r.sp = (@ + 1) % B]
 Push16(s, v) == LET s1 == SpDec(s) IN DWrite(s1, s1.r.sp, v)
 \* pop: [v, s]
 Pop16(s) == [v |-> DVal(s, s.r.sp), s |-> SpInc(DRead(s, s.r.sp))]
-PushPC(s) == LET l == s.r.pc % B  h == s.r.pc \div B
+PushPC(s) == LET l == s.r.pc % B  h == (s.r.pc \div B) % B     \* pc is a 32-bit unsigned value in the code
              IN  IF s.r.cpc = 1 THEN Push16(Push16(s, h), l) ELSE Push16(Push16(s, l), h)
 SetPC(s, pc) == IF pc < 262144 THEN [s EXCEPT !.r.pc = pc] ELSE Fail(s, "assert")     \* ASSERT(new_pc < 0x40000)
 \* SetPC(l | h << 16) without forming a number that does not fit a TLC integer
